@@ -139,6 +139,10 @@ int main(int argc, char *argv[])
     {
         max_nof_iterations = std::stoi(get_cmd_option(argv, argv + argc, "--maxit"));
     }
+    if (cmd_option_exists(argv, argv + argc, "--y"))
+    {
+        nof_convergences = std::stoi(get_cmd_option(argv, argv + argc, "--y"));
+    }
 
     // Read-in data
     // Adjacency data
